@@ -134,8 +134,11 @@ func TestWorker(t *testing.T) {
 
 	if os.Getenv("VERIF_ONESEED") != "" {
 		seed, _ := strconv.ParseUint(os.Getenv("VERIF_ONESEED"), 10, 64)
-		out := RunOne(t, prop, seed, NewChooser(seed), tier, true)
-		fmt.Printf("TRACE %x viol=%v harness=%q\n", out.TraceHash, out.Viol, out.Harness)
+		reps := envInt("VERIF_REPS", 1)
+		for r := 0; r < reps; r++ {
+			out := RunOne(t, prop, seed, NewChooser(seed), tier, reps == 1 || os.Getenv("VERIF_VERBOSE") != "")
+			fmt.Printf("TRACE %x viol=%v harness=%q\n", out.TraceHash, out.Viol, out.Harness)
+		}
 		return
 	}
 	batch := uint64(envInt("VERIF_SEED", 1))
